@@ -4,6 +4,7 @@ import (
 	"fmt"
 	"os"
 	"path/filepath"
+	"sort"
 	"strings"
 	"testing"
 
@@ -33,7 +34,16 @@ func artefacts(src string) map[string]string {
 	r["combined-source"] = combined
 	if err == nil && ast != nil && ast.Call != nil {
 		g, gerr, p := safeCallGraph(ast)
-		if p == nil {
+		if p == nil && gerr != nil {
+			// what MakeCallGraph hands back next to an error is whatever had
+			// been built when the error was met: only the error is a result
+			r["call-graph"] = fmt.Sprintf("error|%v", gerr)
+			if stats.Known("C10/nondeterministic:call-graph-error-text") {
+				// known finding: which error is reported varies
+				r["call-graph"] = "error (text not compared)"
+				stats.Count("C10", "excluded_known:call-graph-error-text", 1)
+			}
+		} else if p == nil {
 			j, _ := jsonMarshal(g)
 			r["call-graph"] = fmt.Sprintf("%s|%v", j, gerr)
 		}
@@ -462,4 +472,36 @@ func TestC10FixIncludes(t *testing.T) {
 				"result": stats.Trunc(first, 400)}
 		})
 	})
+}
+
+// Reproducer of C10/nondeterministic:call-graph-error-text: a saved program
+// that compiles, whose call graph cannot be resolved, and for which
+// MakeCallGraph reports one of two unrelated errors from one repetition to
+// the next.
+func TestKnownC10CallGraphErrorText(t *testing.T) {
+	b, err := os.ReadFile("testdata/known/c10_callgraph_error.mro")
+	if err != nil {
+		dir := os.Getenv("VERIF_DIR")
+		b, err = os.ReadFile(dir + "/harness/props/lang/testdata/known/c10_callgraph_error.mro")
+	}
+	if err != nil {
+		t.Fatalf("INFRA: %v", err)
+	}
+	texts := map[string]int{}
+	for i := 0; i < 400; i++ {
+		_, _, ast, err := syntax.ParseSourceBytes(b, "gen.mro", nil, false)
+		if err != nil || ast == nil || ast.Call == nil {
+			t.Fatalf("INFRA: the saved program does not compile: %v", err)
+		}
+		_, gerr, p := safeCallGraph(ast)
+		texts[fmt.Sprintf("%v|%v", gerr, p)]++
+	}
+	if len(texts) > 1 {
+		var heads []string
+		for k, n := range texts {
+			heads = append(heads, fmt.Sprintf("%dx %q", n, stats.Trunc(k, 90)))
+		}
+		sort.Strings(heads)
+		fmt.Printf("KNOWN-PRESENT C10/nondeterministic:call-graph-error-text: %d different results in 400 repetitions: %s\n", len(texts), strings.Join(heads, " ; "))
+	}
 }
